@@ -146,7 +146,7 @@ func VerifyFunc(p *Prog, fn *ssa.Function, opt Options, so *SolveOpts) *FuncResu
 		}
 		var cands []*Obligation
 		for _, o := range e.Obls {
-			if o.Cand != "" {
+			if o.Cand != "" && !o.Trivial {
 				cands = append(cands, o)
 			}
 		}
@@ -180,6 +180,9 @@ func VerifyFunc(p *Prog, fn *ssa.Function, opt Options, so *SolveOpts) *FuncResu
 	for _, o := range e.Obls {
 		if o.Cand == "" {
 			rest = append(rest, o)
+			if o.Trivial {
+				continue
+			}
 			if so.ExpectFail != nil && so.ExpectFail(o.Name) {
 				expectFail = append(expectFail, o)
 			} else {
